@@ -313,13 +313,16 @@ Fixpoint zrle_rows (fuel : nat) (cap : Z) (v : cpv) (c : bcur) (remaining j rx r
 Definition dec_zrle (x y w h : Z) : M unit :=
   s <- get_st ;;
   let v := variant_of s in
-  let minsz := w * h * rbytes v * 2 in
+  (* fix 8 (notes/fix_C08_7.diff): 4 spare bytes behind the decompressed data, because a 3-byte CPIXEL is read
+     as a whole CARDBPP *)
+  let slack := if fixed s 8 then 4 else 0 in
+  let minsz := w * h * rbytes v * 2 + slack in
   let cap := if c_rawsz s <? minsz then minsz else c_rawsz s in
   upd_st (fun s => set_rawsz s cap) ;;;
   r <- rd_stream 0 ;;
   let '(ok, data) := r in
   if negb ok then failM else
-  if cap <? zlen data then failM else
+  if cap - slack <? zlen data then failM else
   zrle_rows (Z.to_nat (h / cZRLETileHeight + 1)) cap v (mkcur data 0) (zlen data) 0 x y w h.
 
 (* ---------------------------------------------------------------- TRLE (trle.c) *)
